@@ -18,7 +18,7 @@ print(m.get('breaks_property') or m.get('property'), 'yes' if m.get('detected_by
   e=$(date +%s)
   rc=$(echo "$out" | sed -E 's/.*exit=([0-9]+).*/\1/')
   verdict=no; [ "$rc" = 1 ] && verdict=yes; [ "$rc" = 2 ] && verdict=inconclusive
-  exp=$want; [ "$benign" = benign ] && exp=no
+  exp=$want; [ "$benign" = benign ] && exp=$(python3 -c "import json;print(json.load(open('$d/meta.json')).get('expected_verdict','no'))")
   flag=OK; [ "$verdict" != "$exp" ] && flag=DIFF
   echo -e "$n\t$prop\t$benign\texpected=$exp\tgot=$verdict\t$((e-s))s\t$flag" | tee -a /tmp/seedrun.tsv
 done
